@@ -22,6 +22,18 @@ pub enum Focus {
     C14,
 }
 
+fn selection_src(kind: u64) -> String {
+    let head = "party Sender;\nparty Receiver;\n\ntype D { n: Int, }\n\ntx t(quantity: Int) {\n";
+    let body = match kind {
+        6 => "    input* source {\n        from: Sender,\n        min_amount: Ada(quantity),\n    }\n    output {\n        to: Receiver,\n        amount: source - fees,\n    }\n",
+        7 => "    input* payment {\n        from: Sender,\n        min_amount: Ada(quantity),\n    }\n    input* rest {\n        from: Sender,\n    }\n    output {\n        to: Receiver,\n        amount: payment + rest - fees,\n    }\n",
+        8 => "    input a {\n        from: Sender,\n        datum_is: D,\n        min_amount: Ada(quantity),\n    }\n    input b {\n        from: Sender,\n        min_amount: Ada(a.n),\n    }\n    output {\n        to: Receiver,\n        amount: a + b - fees,\n    }\n",
+        9 => "    input source {\n        from: Sender,\n    }\n    output {\n        to: Receiver,\n        amount: source - fees,\n    }\n",
+        _ => "    input* source {\n        from: Sender,\n    }\n    collateral {\n        from: Sender,\n        min_amount: Ada(quantity),\n    }\n    output {\n        to: Receiver,\n        amount: source - fees,\n    }\n",
+    };
+    format!("{}{}}}\n", head, body)
+}
+
 fn boundary(r: &mut Rng) -> i128 {
     *r.pick(&[
         0i128, 1, -1, 2, 23, 24, 255, 256, 65_535, 65_536, 1_000_000, 2_000_000, (1 << 31) - 1, 1 << 31, -(1 << 31),
@@ -370,8 +382,24 @@ pub fn gen_tx(r: &mut Rng, focus: Focus) -> tir::Tx {
     }
 }
 
-fn cost_models(which: &[u8]) -> HashMap<u8, Vec<i64>> {
-    which.iter().map(|v| (*v, vec![1i64; match v { 0 => 166, 1 => 175, _ => 251 }])).collect()
+// shape 0: the lengths in use today; 1: longer ones (as after a protocol update); 2: short ones; the
+// values differ by position, so that a truncated or reordered view has another digest
+fn cost_models(which: &[u8], shape: u8) -> HashMap<u8, Vec<i64>> {
+    which
+        .iter()
+        .map(|v| {
+            let len = match (shape, v) {
+                (1, 0) => 170,
+                (1, 1) => 185,
+                (1, _) => 297,
+                (2, _) => 10,
+                (_, 0) => 166,
+                (_, 1) => 175,
+                _ => 251,
+            };
+            (*v, (0..len).map(|k| if shape == 0 { 1i64 } else { 1 + k as i64 * 7 }).collect())
+        })
+        .collect()
 }
 
 pub fn run(ctx: &mut Ctx, focus: Focus) {
@@ -400,9 +428,11 @@ pub fn run(ctx: &mut Ctx, focus: Focus) {
         } else {
             vec![0, 1, 2]
         };
+        let shape: u8 = if focus == Focus::C10 && r.chance(1, 3) { 1 + r.below(2) as u8 } else { 0 };
+        *hist.entry(format!("cost_model_shape_{}", shape)).or_default() += 1;
         let mk_pp = || {
             let mut pp = crate::c06::test_pparams(4310, mainnet);
-            pp.cost_models = cost_models(&models);
+            pp.cost_models = cost_models(&models, shape);
             pp
         };
         // slots holding arithmetic are reduced first, like the resolver does
@@ -449,7 +479,7 @@ pub fn run(ctx: &mut Ctx, focus: Focus) {
                 .map(|t| {
                     let ws = &t.transaction_witness_set;
                     let version = if ws.plutus_v1_script.is_some() { 0u8 } else if ws.plutus_v2_script.is_some() { 1 } else { 2 };
-                    let expected = match cost_models(&models).get(&version) {
+                    let expected = match cost_models(&models, shape).get(&version) {
                         Some(cm) => conway::ScriptData::build_for(ws, &Some(conway::LanguageView(version, cm.clone()))).map(|x| x.hash().to_vec()),
                         None => None,
                     };
@@ -519,15 +549,26 @@ pub fn run(ctx: &mut Ctx, focus: Focus) {
         }
         // ... and the whole of resolve_tx (input selection, the fee loop, compile) on the resolver's
         // templates, with quantities from the boundary list and protocol parameters near 2^64
-        let templates: Vec<Option<tir::Tx>> = (0..6).map(|k| crate::c05::lower_src(&crate::c05::template_src(k, 0), "t")).collect();
+        // kinds 6..: selection shapes of their own (several UTxOs per block, two blocks on one
+        // wallet, no threshold at all, a threshold read from another input's datum)
+        let src_of = |k: u64| if k < 6 { crate::c05::template_src(k, 0) } else { selection_src(k) };
+        let templates: Vec<Option<tir::Tx>> = (0..11).map(|k| crate::c05::lower_src(&src_of(k), "t")).collect();
         let n_res = if ctx.thorough { 3000 } else { 300 };
         for _ in 0..n_res {
             let mut gr = r.fork();
-            let kind = gr.below(6) as usize;
+            let kind = gr.below(11) as usize;
             let Some(tx) = &templates[kind] else { continue };
             let pp = crate::c05::random_pp(&mut gr);
             let q = if gr.chance(1, 2) { boundary(&mut gr) } else { 1_000_000 + gr.below(5_000_000) as i128 };
-            let amounts: Vec<i128> = (0..1 + gr.below(2)).map(|_| if gr.chance(1, 4) { *gr.pick(&[1i128, u64::MAX as i128, (u64::MAX as i128) + 1, i64::MAX as i128]) } else { 1 + gr.below(100_000_000) as i128 }).collect();
+            // stores from empty to three UTxOs; a quarter of the amounts at the ends of 64 bits and of the i128 range
+            let n_utxos = if kind >= 6 { gr.below(4) } else { 1 + gr.below(2) };
+            let amounts: Vec<i128> = (0..n_utxos).map(|_| if gr.chance(1, 4) { *gr.pick(&[1i128, u64::MAX as i128, (u64::MAX as i128) + 1, i64::MAX as i128, i128::MAX, i128::MAX - 5, -1, i128::MIN]) } else { 1 + gr.below(100_000_000) as i128 }).collect();
+            // a third of the selection shapes: everything at the ends of the range at once
+            let (q, amounts) = if kind >= 6 && gr.chance(1, 3) {
+                (*gr.pick(&[i128::MAX, i128::MIN, i128::MAX - 5]), (0..gr.below(4)).map(|_| *gr.pick(&[i128::MAX, i128::MAX - 5, i128::MIN])).collect())
+            } else {
+                (q, amounts)
+            };
             let store = crate::c05::sender_store(&mut gr, &amounts);
             let mut rec = crate::c05::new_rec(&pp);
             let out = crate::c05::resolve_with(&mut rec, tx, &crate::c05::std_args(q), &store, *gr.pick(&[0usize, 3, 10]));
@@ -538,9 +579,25 @@ pub fn run(ctx: &mut Ctx, focus: Focus) {
                 *panics.entry(site.clone()).or_default() += 1;
                 if impl_violations.len() < 20 {
                     impl_violations.push(serde_json::json!({"index": -1, "ids": [147], "what": "resolve_tx panicked", "site": site,
-                        "template": crate::c05::template_src(kind as u64, 0), "pparams": format!("{:?}", pp), "quantity": q.to_string(),
+                        "template": src_of(kind as u64), "pparams": format!("{:?}", pp), "quantity": q.to_string(),
                         "utxo_lovelace": amounts.iter().map(|a| a.to_string()).collect::<Vec<_>>()}));
                 }
+            }
+        }
+        // ... and ad-hoc directives the model does not cover, compiled with every subset of their fields
+        for mask in 0..16u32 {
+            let mut data = std::collections::HashMap::new();
+            if mask & 1 != 0 { data.insert("stake".to_string(), if mask & 4 != 0 { tir::Expression::Bytes(vec![7u8; 28]) } else { tir::Expression::Number(1) }); }
+            if mask & 2 != 0 { data.insert("drep".to_string(), if mask & 8 != 0 { tir::Expression::Bytes(vec![9u8; 28]) } else { tir::Expression::Bytes(vec![9u8; 5]) }); }
+            let tx = tir::Tx { fees: tir::Expression::Number(0), references: vec![], inputs: vec![], outputs: vec![], validity: None, mints: vec![], burns: vec![],
+                adhoc: vec![tir::AdHocDirective { name: "vote_delegation_certificate".to_string(), data }], collateral: vec![], signers: None, metadata: vec![] };
+            let out = compile_const(&tx, crate::c06::test_pparams(4310, false));
+            stage_runs += 1;
+            *hist.entry(format!("vote_delegation_kind_{}", out.kind)).or_default() += 1;
+            if out.kind == 2 {
+                let site = crate::last_panic();
+                *panics.entry(site.clone()).or_default() += 1;
+                impl_violations.push(serde_json::json!({"index": -1, "ids": [147], "what": "compile panicked on a vote_delegation_certificate directive", "site": site, "fields_mask": mask}));
             }
         }
         ctx.meta.insert("stage_runs".into(), serde_json::json!(stage_runs));
